@@ -33,7 +33,7 @@ RULE = (
     "and self-member, importable Vertex/edge subclasses, law sets with whitelists), with runtime attributes on "
     "vertices, links and universes drawn from scalars (ints incl. > 2^63, floats incl. nan/inf/-0.0, str, bytes, "
     "bool, None, str/bytes/bytearray payloads above 64 KiB), lists/dicts/tuples/sets nested to depth 3, dicts keyed by / sets of graph objects, references to graph objects and a pool of SHARED "
-    "containers attached to several holders; warm neighbor caches; root in {universe, vertex, link, list of "
+    "containers attached to several holders; graphs queried before pickling (full battery: warm neighbor caches and any other memo queries may leave); root in {universe, vertex, link, list of "
     "everything, dict}; protocols 0..5; dumps vs dump(file); loader pickle or dill; caching flag on/off at dump and "
     "at load.  Oracle: canonical(copy) == canonical(original) (classes by qualified name, uids, attribute names "
     "and values, ordered links/ends/members, sharing), no object identity in common, mutating the copy leaves the "
@@ -64,7 +64,7 @@ OPS_W = ["edge"] * 7 + ["v1", "v2"] * 2 + ["link"] * 2 + ["unlink"] + ["ua", "va
 
 def budget(tier):
     if tier == "quick":
-        return dict(shards=16, examples=1200, time_s=55)
+        return dict(shards=16, examples=1000, time_s=55)
     return dict(shards=16, examples=20000, time_s=850)
 
 
@@ -289,8 +289,11 @@ def prepare(case, kf_open):
     try:
         form, order = canon.canonical(root)
         if case["warm"]:
-            # warm the caches with the same pool (hence the same filter truth tables) the oracles use later
-            battery.evaluate([order[p] for p in positions(order, w.vs)], [order[p] for p in positions(order, w.ls)], level=1, unhashable=False)
+            # the graph has been QUERIED before it is pickled (neighbors, find_links, traversals and searches with
+            # and without universes): any memo those queries leave on the objects travels with the pickle.
+            # Same pool (hence the same filter truth tables) as the oracles use later.
+            battery.evaluate([order[p] for p in positions(order, w.vs)], [order[p] for p in positions(order, w.ls)],
+                             [order[p] for p in positions(order, [w.vs[u] for u in w.uidx])][:2], level=2, unhashable=False)
         try:
             blob = dump_bytes(root, case["proto"], case["via_file"])
         except RecursionError as e:
